@@ -388,6 +388,64 @@ Definition case_spec_view : R bytes :=
              json_keys player_json_keys r)
   end.
 
+(* run a call of Model/Dispatch.v on a script *)
+Definition mc_rs_of (x : extra) : request_settings :=
+  mk_rs (or_default (x_hostname x) (str "gamedig")) (or_default (x_protocol x) (-1)%Z).
+Definition run_call (json : bytes -> option (option jv)) (c : call) (n : net) : bytes :=
+  match c with
+  | CValve p e g t => show_query show_response (Valve.query (bz_lookup []) p e g t n)
+  | CQuake v p t => show_query show_qresponse (client_query p (qver_of v) t n)
+  | CUnreal2 p g t => show_query show_u2_response (u2_query p (Some g) t n)
+  | CGamespy v p t =>
+      if v =? 1 then show_query show_gs1 (gs1_query p t n)
+      else if v =? 2 then show_query show_gs2 (gs2_query p t n)
+      else show_query show_gs3 (gs3_query p t n)
+  | CModule name sub port x t =>
+      let dp := match sassoc (prop_module name) hand_ports with Some d => d | None => 0 end in
+      let p := or_default port dp in
+      let java_like (r : outcome java_response * net) : bytes :=
+        (match fst r with Panic 99 => str "ORACLE-MISS" | o => show_outcome show_java o end) ++ str "|" ++ show_trace (snd r) in
+      if String.eqb name "Minecraft" then
+        let rs := option_map mc_rs_of x in
+        if String.eqb sub "auto" then java_like (query_auto json p t rs n)
+        else if String.eqb sub """Java""" then java_like (query_java json p t rs n)
+        else if String.eqb sub """Bedrock""" then show_query show_bedrock (query_bedrock p t n)
+        else if String.eqb sub "{""Legacy"":""V1_6""}" then show_query show_java (query_legacy_specific V1_6 p t n)
+        else if String.eqb sub "{""Legacy"":""V1_4""}" then show_query show_java (query_legacy_specific V1_4 p t n)
+        else if String.eqb sub "{""Legacy"":""VB1_8""}" then show_query show_java (query_legacy_specific VB1_8 p t n)
+        else model_abstains
+      else if String.eqb name "Savage2" then show_query show_savage2 (savage2_query p t n)
+      else if String.eqb name "Mindustry" then show_query show_mindustry (mindustry_query p t n)
+      else if String.eqb name "JC2M" then show_query show_jc2m (jc2m_query p t n)
+      else if String.eqb name "FFOW" then show_query show_ffow (ffow_query (bz_lookup []) p t n)
+      else if String.eqb name "TheShip" then show_query show_ship_response (theship_query (bz_lookup []) p t n)
+      else model_abstains
+  end.
+Definition rd_json_table : R (bytes -> option (option jv)) :=
+  let* nj := rd_u8 in
+  let* tbl := rd_list (N.to_nat nj) (let* txt := rd_bytes32 in let* valid := rd_u8 in
+                                     if valid =? 0 then ret (txt, None) else let* v := rd_tree 12 in ret (txt, Some v)) in
+  ret (fun t => match find (fun e => bytes_eqb (fst e) t) tbl with Some e => Some (snd e) | None => None end).
+(* family 34: the generic entry point with explicit extra request settings *)
+Definition rd_extra : R extra :=
+  let* pl := rd_opt rd_toggle in let* ru := rd_opt rd_toggle in
+  let* ck := rd_opt (let* b := rd_u8 in ret (negb (b =? 0))) in
+  let* hn := rd_opt rd_bytes16 in let* pv := rd_opt rd_i32 in
+  ret (mk_xs pl ru ck hn pv).
+Definition case_generic_extra : R bytes :=
+  let* idb := rd_bytes16 in
+  let* port := rd_opt rd_u16 in
+  let* x := rd_opt rd_extra in
+  let* ts := rd_tsettings in
+  let* n := rd_script in
+  let* json := rd_json_table in
+  match find (fun d => String.eqb (d_id d) (string_of_bytes idb)) games, ts with
+  | None, _ => ret (str "NO-SUCH-GAME")
+  | Some d, Ok t => if 1000000 <? ts_retries_or_default t then ret model_abstains
+                    else ret (run_call json (dispatch d port t x) n)
+  | Some _, o => ret (show_outcome (fun _ => []) o ++ str "|")
+  end.
+
 (* family 14: a game of the definitions table queried through the generic
    entry point (query_with_timeout_and_extra_settings with no extra settings);
    the harness compares the other paths with it. 114: replies of a server of
@@ -403,12 +461,7 @@ Definition case_paths : R bytes :=
   | None, _ => ret (str "NO-SUCH-GAME")
   | Some d, Ok t =>
       if 1000000 <? ts_retries_or_default t then ret model_abstains
-      else match dispatch d port t None with
-           | CValve p e g t' => ret (show_query show_response (Valve.query (bz_lookup []) p e g t' n))
-           | CQuake v p t' => ret (show_query show_qresponse (client_query p (qver_of v) t' n))
-           | CUnreal2 p g t' => ret (show_query show_u2_response (u2_query p (Some g) t' n))
-           | _ => ret model_abstains
-           end
+      else ret (run_call (fun _ => None) (dispatch d port t None) n)
   | Some _, o => ret (show_outcome (fun _ => []) o ++ str "|")
   end.
 Definition case_spec_valve_for : R bytes :=
@@ -650,6 +703,7 @@ Definition run_case_R : R bytes :=
   else if fam =? 22 then case_unreal2
   else if fam =? 30 then case_idcheck
   else if fam =? 33 then case_minecraft
+  else if fam =? 34 then case_generic_extra
   else if fam =? 41 then case_gamespy 1
   else if fam =? 42 then case_gamespy 2
   else if fam =? 43 then case_gamespy 3
